@@ -899,6 +899,16 @@ func (b Bits) String() string {
 	return strings.Join(b.Labels, " ")
 }
 
+// Compare orders sets of bits by their positions
+func (b Bits) Compare(c Comparable) int {
+	if other := c.(Bits).Positions; b.Positions < other {
+		return -1
+	} else if b.Positions > other {
+		return 1
+	}
+	return 0
+}
+
 func (b Bits) Value() interface{} {
 	return b.Positions
 }
